@@ -62,6 +62,9 @@ pub struct M {
     pub algos: Vec<&'static str>,
     pub a_wins: bool, // salted-hash orientation
     pub pool_cap: usize,
+    /// FIFO network with loss only (deliver the oldest datagram, drop it, cycle A, cycle B): a small alphabet for deep schedules
+    /// (several completed rotations, so that key slots are re-used, followed by a delayed message)
+    pub narrow: bool,
 }
 
 pub const CYCLE: usize = 120;
@@ -214,6 +217,17 @@ impl Model for M {
 
     fn enabled(&self, s: &Sys, _hist: &[Ev]) -> Vec<Ev> {
         let mut v = vec![];
+        if self.narrow {
+            if !s.pool.is_empty() {
+                v.push(Ev::Deliver(0));
+            }
+            v.push(Ev::CycleA);
+            v.push(Ev::CycleB);
+            if !s.pool.is_empty() {
+                v.push(Ev::Drop(0));
+            }
+            return v;
+        }
         for i in 0..s.pool.len() {
             v.push(Ev::Deliver(i));
         }
@@ -395,13 +409,14 @@ impl Model for M {
 fn variants(tier: Tier) -> Vec<(String, M, usize)> {
     let mut v = vec![];
     let depth = tier.pick(7, 12);
-    v.push(("rotation_aes128_a".to_string(), M { algos: vec!["aes128"], a_wins: true, pool_cap: 4 }, depth));
-    v.push(("rotation_aes128_b".to_string(), M { algos: vec!["aes128"], a_wins: false, pool_cap: 4 }, depth - 1));
+    v.push(("rotation_aes128_a".to_string(), M { algos: vec!["aes128"], a_wins: true, pool_cap: 4, narrow: false }, depth));
+    v.push(("rotation_aes128_b".to_string(), M { algos: vec!["aes128"], a_wins: false, pool_cap: 4, narrow: false }, depth - 1));
+    v.push(("rotation_fifo_deep".to_string(), M { algos: vec!["aes128"], a_wins: true, pool_cap: 4, narrow: true }, tier.pick(11, 16)));
     if tier == Tier::Thorough {
-        v.push(("rotation_aes256_a".to_string(), M { algos: vec!["aes256"], a_wins: true, pool_cap: 4 }, 9));
-        v.push(("rotation_chacha20_b".to_string(), M { algos: vec!["chacha20"], a_wins: false, pool_cap: 4 }, 9));
+        v.push(("rotation_aes256_a".to_string(), M { algos: vec!["aes256"], a_wins: true, pool_cap: 4, narrow: false }, 9));
+        v.push(("rotation_chacha20_b".to_string(), M { algos: vec!["chacha20"], a_wins: false, pool_cap: 4, narrow: false }, 9));
     } else {
-        v.push(("rotation_chacha20_a".to_string(), M { algos: vec!["chacha20"], a_wins: true, pool_cap: 4 }, 5));
+        v.push(("rotation_chacha20_a".to_string(), M { algos: vec!["chacha20"], a_wins: true, pool_cap: 4, narrow: false }, 5));
     }
     v
 }
